@@ -1,3 +1,104 @@
-(* C05 -- stub, theorems follow *)
-From Coq Require Import QArith ZArith List.
-From FL Require Import Tradeoff Hull Interp ThreshOpt.
+(* C05 -- ThresholdOptimizer returns the best parity-satisfying threshold rule on its grid.
+   Only statements, `exact`, and Print Assumptions. *)
+From Coq Require Import QArith ZArith List Bool.
+From FL Require Import Num Tradeoff Tradeoff_proofs Hull Hull_proofs Interp Interp_proofs ThreshOpt ThreshOpt_proofs.
+From FLGen Require Gen_metricdict Gen_hull.
+Import ListNotations.
+Open Scope Q_scope.
+
+Theorem C05_metric_table_is_source : forall m c, Gen_metricdict.metric_eval m c = metric_eval m c.
+Proof. intros m c; destruct m; reflexivity. Qed.
+Print Assumptions C05_metric_table_is_source.
+
+Theorem C05_drop_test_is_source : forall r0 r1 r2,
+  drop_test r0 r1 r2 = Gen_hull.drop_test_xy (px r0) (py r0) (px r1) (py r1) (px r2) (py r2).
+Proof. intros; reflexivity. Qed.
+Print Assumptions C05_drop_test_is_source.
+
+(* jensen_chain: a chain that passes the boolean upper-hull test against pts dominates every convex
+   combination of pts (the hull is the concave envelope of the achievable points) *)
+Theorem C05_jensen_chain : forall h pts wp x, chain_ok (map px h) -> is_upper_hull h pts = true ->
+  (forall e, In e wp -> 0 <= fst e /\ In (snd e) pts) -> wtot wp == 1 ->
+  wsum px wp == x -> 0 <= x -> x <= 1 ->
+  wsum py wp <= interp_curve h x.
+Proof. exact jensen_chain. Qed.
+Print Assumptions C05_jensen_chain.
+
+(* hull correctness, both halves, for every input: the returned chain is strictly concave (any three consecutive
+   hull points fail the drop test) and no point of the (x, y)-sorted input lies above the line through two
+   consecutive chain points (vertical first segment and duplicate points included) *)
+Theorem C05_hull_concave : forall pts i, (S (S i) < length (hull pts))%nat ->
+  drop_test (nth i (hull pts) dpt) (nth (S i) (hull pts) dpt) (nth (S (S i)) (hull pts) dpt) = false.
+Proof. exact hull_concave. Qed.
+Print Assumptions C05_hull_concave.
+
+Theorem C05_hull_is_upper_hull : forall pts, lsorted pts -> is_upper_hull (hull pts) pts = true.
+Proof. exact hull_is_upper_hull. Qed.
+Print Assumptions C05_hull_is_upper_hull.
+
+Theorem C05_sort_xy_sorted : forall l, lsorted (sort_xy l) /\ (forall r, In r (sort_xy l) <-> In r l).
+Proof. intro l. split; [apply sort_xy_sorted | intro r; apply sort_xy_in]. Qed.
+Print Assumptions C05_sort_xy_sorted.
+
+(* every tradeoff point IS a threshold rule of the group: its (x, y) are the constraint metric and the
+   objective of applying its operation to the group's rows -- so mixtures of tradeoff points are exactly
+   the per-group randomisations over (flipped) thresholdings the property quantifies over *)
+Theorem C05_points_are_rules : forall flip mx my g p, In p (tradeoff_points flip mx my g) ->
+  px p == metric_eval mx (exp_cm (op_rule (pop p)) g) /\ py p == metric_eval my (exp_cm (op_rule (pop p)) g).
+Proof. exact tradeoff_point_sound. Qed.
+Print Assumptions C05_points_are_rules.
+
+(* the property, simple constraints: the fitted rule attains `best` (frequency-weighted objective on the training
+   rows), and no family of per-group randomisations over the groups' (flipped) threshold rules that gives every
+   group the same grid value k/N of the constrained metric has a larger weighted objective.  The constant
+   classifiers are such families (k = 0 / k = N, all weight on a corner point), so the fit is never worse. *)
+Theorem C05_simple_optimal : forall flip mx my N gs, constraint_metric mx ->
+  (forall g, In g gs -> both_labels g = true) ->
+  let f := fit_simple flip mx my N gs in
+  let best := nth (fs_best f) (fs_overall f) 0 in
+  weighted gs (map (fun gr => metric_eval my (exp_cm (pmf (snd gr)) (fst gr))) (combine gs (simple_rules f))) == best /\
+  forall k mixes, (k <= Pos.to_nat N)%nat ->
+    Forall2 (fun g wp => valid_mix flip mx my (grid_pt N k) g wp) gs mixes ->
+    weighted gs (map (wsum py) mixes) <= best.
+Proof. exact simple_optimal. Qed.
+Print Assumptions C05_simple_optimal.
+
+(* equalized odds: any rule giving every group the same (FPR, TPR) = (k/N, y) by randomising over the group's
+   threshold rules has an overall objective (from the overall label counts) not above the arg-max value ... *)
+Theorem C05_eo_optimal : forall flip obj N gs, obj = Acc \/ obj = BalAcc -> gs <> [] ->
+  (forall g, In g gs -> both_labels g = true) ->
+  let f := fit_eo flip obj N gs in
+  let npos := count_label true (concat gs) in
+  let nneg := (Z.of_nat (length (concat gs)) - npos)%Z in
+  nth (fe_best f) (fe_obj f) 0 = metric_eval obj (eo_counts npos nneg (fe_xbest f) (fe_ybest f)) /\
+  forall k y mixes, (k <= Pos.to_nat N)%nat ->
+    Forall2 (fun g wp => valid_mix flip FPR TPR (grid_pt N k) g wp /\ wsum py wp == y) gs mixes ->
+    metric_eval obj (eo_counts npos nneg (grid_pt N k) y) <= nth (fe_best f) (fe_obj f) 0.
+Proof. exact eo_optimal. Qed.
+Print Assumptions C05_eo_optimal.
+
+(* ... and that value is the overall objective of the fitted rule: accuracy / balanced accuracy of the expected
+   confusion matrix of ALL training rows under the fitted per-group rules *)
+Theorem C05_eo_objective_achieved : forall flip obj N gs, (forall g, In g gs -> both_labels g = true) ->
+  let f := fit_eo flip obj N gs in
+  metric_eval obj (total_cm (combine gs (fe_rules f))) ==
+  metric_eval obj (eo_counts (count_label true (concat gs))
+                             (Z.of_nat (length (concat gs)) - count_label true (concat gs)) (fe_xbest f) (fe_ybest f)).
+Proof. exact eo_objective_achieved. Qed.
+Print Assumptions C05_eo_objective_achieved.
+
+(* non-vacuity: premises hold on a tied, flipped instance, the optimum is interior and beats both constants *)
+Example C05_example :
+  let gs := [[(0, false); (1, false); (2, true); (3, true); (1, true)];
+             [(0, false); (2, false); (3, true); (1, true); (0, false); (3, true)]]%Z in
+  let f := fit_simple true SelRate Acc 4 gs in
+  (forall g, In g gs -> both_labels g = true) /\
+  (forall g, In g gs -> is_upper_hull (group_hull true SelRate Acc g) (tradeoff_points true SelRate Acc g) = true) /\
+  fs_best f = 2%nat /\ map Qred (fs_overall f) = [5 # 11; 31 # 44; 9 # 11; 17 # 22; 6 # 11] /\
+  map (fun r => Qred (r_p0 r)) (simple_rules f) = [3 # 4; 1 # 2].
+Proof.
+  cbv zeta. split; [|split].
+  - intros g [<-|[<-|[]]]; reflexivity.
+  - intros g [<-|[<-|[]]]; vm_compute; reflexivity.
+  - vm_compute. repeat split; reflexivity.
+Qed.
